@@ -5,8 +5,10 @@ import (
 	"context"
 	"encoding/json"
 	"fmt"
+	"grol.io/grol/extensions"
 	"os"
 	"os/exec"
+	"runtime/debug"
 	"strconv"
 	"strings"
 	"syscall"
@@ -60,8 +62,8 @@ type pollCtx struct {
 }
 
 func (p *pollCtx) Deadline() (time.Time, bool) { return time.Time{}, false }
-func (p *pollCtx) Done() <-chan struct{}        { return p.done }
-func (p *pollCtx) Value(any) any                { return nil }
+func (p *pollCtx) Done() <-chan struct{}       { return p.done }
+func (p *pollCtx) Value(any) any               { return nil }
 func (p *pollCtx) Err() error {
 	p.n++
 	if p.cancelAt > 0 && p.n >= p.cancelAt {
@@ -231,6 +233,25 @@ func c09Templates() []c09Tpl {
 		{"mutual", `func a(n) {b(n + 1)}; func b(n) {a(n + 1)}; a(0)`, "depth"},
 		{"closure-rec", `g = n => g(n + 1); g(0)`, "depth"},
 		{"self-rec", `(n => self(n + 1))(0)`, "depth"},
+		{"unjson-loop", `unjson("for true {}")`, ""},
+		{"eval-loop", `eval("for true {}")`, ""},
+		{"unjson-grow", `unjson("s = \"x\"; for 70 {s = s + s}; len(s)")`, ""},
+		// values nested as deep as a loop can make them before the deadline, handed to everything that recurses on them
+		{"nest-1m-print", `a = []; for 1000000 {a = [a]}; print(a)`, ""},
+		{"nest-300k-result", `a = []; for 300000 {a = [a]}; a`, ""},
+		{"nest-600k-sprintf", `a = []; for 600000 {a = [a]}; len(sprintf("%v", a))`, ""},
+		{"nest-1m-json-go", `a = []; for 1000000 {a = [a]}; len(json_go(a))`, ""},
+		{"nest-1m-json", `a = []; for 1000000 {a = [a]}; len(json(a))`, ""},
+		{"nest-1m-eq", `a = []; for 1000000 {a = [a]}; b = a; [a == b, a < b]`, ""},
+		{"nest-1m-mapkey", `a = []; for 1000000 {a = [a]}; m = {a: 1}; len(m)`, ""},
+		{"nest-1m-arg", `a = []; for 1000000 {a = [a]}; func f(x) {1}; f(a) + f(a)`, ""},
+		{"nest-1m-error", `a = []; for 1000000 {a = [a]}; error(a)`, ""},
+		{"nest-500k-map", `m = {}; for 500000 {m = {"k": [m]}}; println(m)`, ""},
+		{"nest-500k-str", `m = {}; for 500000 {m = {"k": m}}; len(str(m))`, ""},
+		{"sprintf-double", `s = "aaaaaaaaaaaaaaaa"; for 40 {s = sprintf("%s%s", s, s)}; len(s)`, ""},
+		{"print-buffer", `s = "x" * 1000000; func f() {for true {print(s)}}; f()`, ""},
+		{"unrestricted-run-then-loop", `run("true"); for true {}`, ""},
+		{"unrestricted-exec-then-loop", `exec("true"); for true {}`, ""},
 		{"macro-loop", `m = macro(x) {for true {}}; m(1)`, ""},
 		{"macro-rec", `m = macro(x) {func r(n) {r(n + 1)}; r(0)}; m(1)`, ""},
 	}
@@ -271,7 +292,12 @@ func c09Child(args []string) int {
 	durMs, _ := strconv.Atoi(args[2])
 	// address-space safety net for the sandbox
 	_ = syscall.Setrlimit(syscall.RLIMIT_AS, &syscall.Rlimit{Cur: 6 << 30, Max: 6 << 30})
-	InitGrolNoMemLimit()
+	if os.Getenv("VERIF_C09_UNRESTRICTED") != "" {
+		InitGrolWith(&extensions.Config{UnrestrictedIOs: true}) // templates that need run()/exec()
+		debug.SetMemoryLimit(256 << 20)
+	} else {
+		InitGrolNoMemLimit()
+	}
 	// the child never outlives its parent's patience (the parent gives up 90 s after the deadline and may itself be
 	// killed by the case watchdog, which would leave a non terminating child behind)
 	time.AfterFunc(time.Duration(durMs)*time.Millisecond+100*time.Second, func() { os.Exit(97) })
@@ -318,6 +344,9 @@ func (p c09) child(c *fw.Ctx, t c09Tpl, depth, durMs int, dir string) (kind, det
 	defer cancel()
 	cmd := exec.CommandContext(ctx, exe, "c09child", file, strconv.Itoa(depth), strconv.Itoa(durMs))
 	cmd.Env = append(os.Environ(), "GOMEMLIMIT=256MiB", "GOTRACEBACK=single")
+	if strings.HasPrefix(t.name, "unrestricted-") {
+		cmd.Env = append(cmd.Env, "VERIF_C09_UNRESTRICTED=1")
+	}
 	var outb, errb bytes.Buffer
 	cmd.Stdout = &outb
 	cmd.Stderr = &errb
